@@ -122,6 +122,19 @@ def gen(rng, tier):
               "bool[0]", "A", "Person", "uint008", "bytes032", "uint0256", "A[+2]", "A[-1]", "A[ 1]", "A[1", "A]", "[]", "[1]", "A[][", "A[18446744073709551615]",
               "A[18446744073709551616]", "uint256 ", " uint256", "Uint256", "uint256x", "é", "uint²", "bytes٣", "A1", "1A", "bytes1x[]", "uint8[]" * 1 + "[]" * 10]:
         cases.append(Case("td.kind " + hx(t), tags=("kind-grammar",), nontrivial=False))
+    # perturbed spellings of atomic type names: signs, spaces, separators, zeros, other numerals between the name and the
+    # width, case, surrounding white space — the member type grammar is: a name of letters, then decimal digits
+    from vlib.core import perturb
+    for base in ("uint256", "uint8", "int128", "bytes32", "bytes1", "bytes", "address", "string", "bool"):
+        width = "".join(ch for ch in base if ch.isdigit())
+        name = base[:len(base) - len(width)]
+        extra = [name + sep + width for sep in ("+", "-", " ", "_", ".", "0", "00", "+0", "x", "\u200b", "\u0660")] if width else []
+        extra += [name + "\u0662\u0665\u0666", name + "２５６", name + "²"] if width else []
+        for t in perturb(base) + extra:
+            cases.append(Case("td.kind " + hx(t), tags=("kind-grammar", "perturbed"), nontrivial=False))
+            cases.append(Case("td.kind " + hx(t + "[]"), tags=("kind-grammar", "perturbed"), nontrivial=False))
+    for t in ["A[+2]", "A[-2]", "A[ 2]", "A[2 ]", "A[02]", "A[0x2]", "A[2_0]", "A[²]", "A[٢]", "A[2][+3]", "A[][+1]", "A[1e1]", "A[2.0]"]:
+        cases.append(Case("td.kind " + hx(t), tags=("kind-grammar", "perturbed"), nontrivial=False))
     for _ in range(200 if tier == "thorough" else 50):
         t = rng.choice(tdgen.ALL_ATOMS + ["A", "Foo"]) + "".join(rng.choice(["[]", "[1]", "[22]", "[0]"]) for _ in range(rng.randint(0, 8)))
         cases.append(Case("td.kind " + hx(t), tags=("kind-arrays",), nontrivial=False))
